@@ -345,5 +345,11 @@ def r6_strip_auth(chk: Check) -> None:
     chk.decide(True if fresh else None, "C14.R6", ra, "remove_auth returns a new case", "shape not recognised", ra.loc())
 
 
+def rfwd_forwarding(chk: Check) -> None:
+    from . import shared
+
+    shared.forwarding_rule(chk, "C14.FWD", ('auths.py:', 'generation/case.py:Case.call', 'generation/case.py:Case.call_and_validate'), "auth / request options", 3)
+
+
 def rules(tier: str) -> list:  # type: ignore[type-arg]
-    return [r1_overrides, r2_network_config, r3_precedence, r4_set_on_case, r5_lock, r6_strip_auth]
+    return [r1_overrides, r2_network_config, r3_precedence, r4_set_on_case, r5_lock, r6_strip_auth, rfwd_forwarding]
